@@ -7,6 +7,11 @@ CONSTANTS
   Frames <- BFramesThorough
   MaxFrames = 8
   CrcCounted = TRUE
+  PayFrames = {}
+  PayHeads = {}
+  TwiceLens = {}
+  PassThrough = FALSE
+  LenMod = 0
   Depth = 14
 INVARIANTS Emit DecodeExact
 CHECK_DEADLOCK FALSE
